@@ -6,6 +6,7 @@ From TenpyV Require Import Base.Prelude Base.PyLib Gen.G_trotter Gen.G_acct.
 From TenpyV Require Import Model.Trotter Model.TimeAcct Proofs.TrotterP Proofs.TimeAcctP.
 From TenpyV Require Import Model.TrotterMerge Proofs.TrotterP2.
 From TenpyV Require Import Model.TrotterMergeCheck Proofs.TrotterP3.
+From TenpyV Require Import Gen.G_tau Model.TauAcct Proofs.TauAcctP.
 From Coq Require Import QArith String.
 Open Scope Z_scope.
 
@@ -163,6 +164,25 @@ Example T14_example : forall c, In c engines ->
   Forall well_formed_call h /\ total_time h = 64 /\ total_err h = 19.
 Proof. intros c _. cbn. repeat constructor. Qed.
 
+(* The complex step recorded by TEBDEngine.calc_U (table regenerated from the source): after any sequence of
+   calc_U(type_evo) + evolve/update_imag(N) calls with type_evo in {real, imag} -- run(), run_GS(), run_imaginary() --
+   evolved_time = (sum of N*dt of the real calls) - i (sum of N*dt of the imaginary calls), and both increment
+   statements of the source are `+ N_steps * tau`. *)
+Theorem T14_tebd_time_real_imag : forall h, forallb known_type h = true ->
+  run_time tebd_tau (0, 0) h = Some (steps_of "real" h, - steps_of "imag" h).
+Proof. exact run_time_source. Qed.
+
+Theorem T14_tebd_increments_are_n_tau : incr_ok = true.
+Proof. exact incr_shape. Qed.
+
+Theorem T14_tebd_unknown_type_rejected : forall ty dt n r t,
+  String.eqb ty "real" = false -> String.eqb ty "imag" = false -> run_time tebd_tau t ((ty, dt, n) :: r) = None.
+Proof. exact run_time_unknown. Qed.
+
+Example T14_tebd_time_example :
+  run_time tebd_tau (0, 0) [("imag"%string, 64, 2); ("imag"%string, 16, 4); ("real"%string, 8, 3)] = Some (24, -192).
+Proof. vm_compute. reflexivity. Qed.
+
 Print Assumptions T14_trotter_time.
 Print Assumptions T14_trotter_zero_steps.
 Print Assumptions T14_trotter_symmetric.
@@ -174,3 +194,6 @@ Print Assumptions T14_trotter_merge.
 Print Assumptions T14_merge_normal_form.
 Print Assumptions T14_trotter_merge_splits.
 Print Assumptions T14_merge_congruence.
+Print Assumptions T14_tebd_time_real_imag.
+Print Assumptions T14_tebd_increments_are_n_tau.
+Print Assumptions T14_tebd_unknown_type_rejected.
